@@ -266,7 +266,7 @@ def project(svg, scale=8.0, want_style=False, want_raw=False):
                 "nstyle": 0, "ndefs": 0, "nbackdrop": 0, "foreign": [], "attrs_foreign": [], "comments": 0, "pis": 0,
                 "doctype": 0, "cdata": 0, "entities": 0, "entityrefs": 0, "stray_text": 0, "order": [], "style": [],
                 "stylelen": 0, "badnum": 0, "inexact": 0, "overflow": 0, "whnum": 0, "backdrop": [], "ws_between": 0,
-                "clstok": [], "namestok": [], "markers": []}
+                "clstok": [], "namestok": [], "markers": [], "css": []}
     # literal entity references other than the five predefined ones and numeric ones
     doc["entityrefs"] = len([m for m in re.findall(r"&([^;\s]{1,32});", svg)
                              if m not in ("lt", "gt", "amp", "apos", "quot") and not m.startswith("#")])
@@ -276,6 +276,20 @@ def project(svg, scale=8.0, want_style=False, want_raw=False):
     doc["stylelen"] = len(style)
     if want_style:
         doc["style"] = [cps(line) for line in style.split("\n")]
+        # the same text cut into rules, purely syntactically (no nested blocks in this sheet): [selector, [[property, value]]]
+        # with blanks around the tokens removed - for predicates that must not depend on how the sheet is laid out
+        css = []
+        for block in style.split("}"):
+            if "{" not in block:
+                continue
+            sel, _, body = block.partition("{")
+            decls = []
+            for d in body.split(";"):
+                if ":" in d:
+                    pr, _, va = d.partition(":")
+                    decls.append([cps(pr.strip()), cps(va.strip())])
+            css.append([cps(" ".join(sel.split())), decls])
+        doc["css"] = css
     if want_raw:
         doc["_style_text"] = style
     doc["badnum"] = num.bad
